@@ -41,3 +41,6 @@ func (m *Monitor) Put(ctx context.Context, b *common.Beacon) error {
 	}
 	return nil
 }
+
+// Close is a no-op: the monitor's owner closes the base store (a handler Stop must not end the harness' view).
+func (m *Monitor) Close() error { return nil }
